@@ -36,6 +36,7 @@ import (
 	libp2pquic "github.com/libp2p/go-libp2p/p2p/transport/quic"
 	"github.com/libp2p/go-libp2p/p2p/transport/quicreuse"
 	"github.com/libp2p/go-libp2p/p2p/transport/tcp"
+	libp2pwebtransport "github.com/libp2p/go-libp2p/p2p/transport/webtransport"
 	ma "github.com/multiformats/go-multiaddr"
 	manet "github.com/multiformats/go-multiaddr/net"
 	"github.com/quic-go/quic-go"
@@ -79,6 +80,12 @@ type Opts struct {
 	QUICOpts    []libp2pquic.Option
 	QUICReuse   []quicreuse.Option // e.g. quicreuse.DisableReuseport(): every dial gets a socket of its own
 	NoTCPListen bool
+	// WebTransport (needs QUIC) adds the real WebTransport transport (p2p/transport/webtransport + webtransport-go +
+	// quic-go/http3) sharing the QUIC connection manager — and, as in a real node, the UDP port: with Port != 0 it listens
+	// on /udp/<Port>/quic-v1/webtransport; the address with its certhashes is node.WTAddr().
+	WebTransport bool
+	WTOpts       []libp2pwebtransport.Option
+	NoQUICListen bool // QUIC transport dial-only (WebTransport may still listen)
 
 	WithHost bool // build a basic host on top of the swarm
 	HostOpts *basichost.HostOpts
@@ -96,6 +103,7 @@ type Node struct {
 	Up     transport.Upgrader
 	Addr   ma.Multiaddr // listen address (nil when dial-only)
 	QAddr  ma.Multiaddr // QUIC listen address (nil without QUIC or when dial-only)
+	WTBase ma.Multiaddr // WebTransport listen address without certhashes (nil without WebTransport)
 	QUICCM *quicreuse.ConnManager
 	ownsPS bool
 }
@@ -305,6 +313,18 @@ func New(n *simnet.Net, o Opts) (*Node, error) {
 			return nil, err
 		}
 	}
+	if o.QUIC && o.WebTransport {
+		wt, err := libp2pwebtransport.New(o.Key, psk, nd.QUICCM, o.Gater, nd.Rcmgr, o.WTOpts...)
+		if err == nil {
+			err = sw.AddTransport(wt)
+		}
+		if err != nil {
+			nd.closeQUIC()
+			sw.Close()
+			nd.closePS()
+			return nil, err
+		}
+	}
 	if o.Port != 0 && !o.NoTCPListen {
 		nd.Addr = ma.StringCast(fmt.Sprintf("/%s/%s/tcp/%d", proto, o.IP, o.Port))
 		if err := sw.Listen(nd.Addr); err != nil {
@@ -314,7 +334,16 @@ func New(n *simnet.Net, o Opts) (*Node, error) {
 			return nil, err
 		}
 	}
-	if o.Port != 0 && o.QUIC {
+	if o.Port != 0 && o.QUIC && o.WebTransport {
+		nd.WTBase = ma.StringCast(fmt.Sprintf("/%s/%s/udp/%d/quic-v1/webtransport", proto, o.IP, o.Port))
+		if err := sw.Listen(nd.WTBase); err != nil {
+			nd.closeQUIC()
+			sw.Close()
+			nd.closePS()
+			return nil, err
+		}
+	}
+	if o.Port != 0 && o.QUIC && !o.NoQUICListen {
 		nd.QAddr = ma.StringCast(fmt.Sprintf("/%s/%s/udp/%d/quic-v1", proto, o.IP, o.Port))
 		if err := sw.Listen(nd.QAddr); err != nil {
 			nd.closeQUIC()
@@ -374,6 +403,16 @@ func (nd *Node) Close() {
 	}
 	nd.closeQUIC()
 	nd.closePS()
+}
+
+// WTAddr is the WebTransport listen address as the swarm advertises it now (with the current certhashes), nil if none.
+func (nd *Node) WTAddr() ma.Multiaddr {
+	for _, a := range nd.Swarm.ListenAddresses() {
+		if _, err := a.ValueForProtocol(ma.P_WEBTRANSPORT); err == nil {
+			return a
+		}
+	}
+	return nil
 }
 
 // AddrInfo of the node.
